@@ -292,6 +292,8 @@ def config_facets(run):
             "more fractions than phases": '[parameters]\nphase_assemblage = ["olivine"]\nphase_fractions = [0.5, 0.5]\n',
             "unknown phase": '[parameters]\nphase_assemblage = ["quartz"]\nphase_fractions = [1.0]\n',
             "unknown fabric letter": '[parameters]\ninitial_olivine_fabric = "Q"\n',
+            **{f"fabric given as {v!r} (a fragment of an enumeration member name, not one of the letters A-E)": f'[parameters]\ninitial_olivine_fabric = "{v}"\n'
+               for v in sorted({frag for m in core.MineralFabric for frag in (m.name, m.name.split("_", 1)[-1], m.name.split("_", 1)[-1].lower(), m.name.split("_", 1)[-1] * 2, m.name.split("_", 1)[0], "")} - set("ABCDE"))},
             "output for a phase that is not simulated": '[output]\nraw_output = ["enstatite"]\n',
             "unknown output phase": '[output]\ndiagnostics = ["quartz"]\n',
             "too few creep-law coefficients": '[parameters]\ndisl_coefficients = [1.0, 2.0]\n',
